@@ -3,6 +3,7 @@
 import numpy as np
 from vlib import env, gen
 from vlib import sysoracles as so
+from vlib.oracles import dense as oracles_dense
 from vlib.oracles import dense, quat_to_mat, loguniform, compare, fd_jac
 
 ID = "C06"
@@ -18,7 +19,7 @@ ASSUMPTIONS = ["plane orientation constant in time (as the property states); tra
                "'explicitly declared unimplemented' is read as raising NotImplementedError; any other exception from an exposed System contact method is a violation",
                "tangent basis returned by the contact is only required to be orthonormal and perpendicular to the normal",
                "T/D oracles: Richardson central differences, violation iff error > 1e-6*max(1,|D|) + 20*uncertainty"]
-REQUIRED_MONITORS = ["GEO:g_N", "GEO:gamma_F", "T:g_dot", "T:g_ddot", "W:W", "D:g_q", "D:g_dot_q", "D:Wla_q",
+REQUIRED_MONITORS = ["GEO:g_N", "GEO:revisit", "GEO:gamma_F", "T:g_dot", "T:g_ddot", "W:W", "D:g_q", "D:g_dot_q", "D:Wla_q",
                      "T:gamma_F_dot", "W:W_F", "D:gamma_F_q", "D:Wla_F_q", "D:gamma_F_dot_q", "D:gamma_F_dot_u"]
 META = {
     "level_text": "Exploration: generated sphere-plane and sphere-sphere contact systems; gap and slip velocity decided by an independent geometric model, every derivative level by T/W/D oracles on the System-level contact methods; exposed methods must return or raise NotImplementedError. Held on the systems and states generated.",
@@ -242,5 +243,48 @@ def run_case(spec, ctx):
             else:
                 for m in ("GEO:gamma_F", "T:gamma_F_dot", "W:W_F", "D:gamma_F_q", "D:Wla_F_q", "D:gamma_F_dot_q", "D:gamma_F_dot_u"):
                     pass
+        # ---------------- revisit: the same coordinates at another time ----------------
+        # (with a prescribed moving partner the contact kinematics change with t at fixed q; quantities remembered from the
+        # previous evaluation at that q must not leak into this one)
+        for t2 in (t + float(rng.uniform(0.2, 1.0)), t):
+            system.g_N_dot(t, q, u); system.W_N(t, q)
+            if mu > 0:
+                system.gamma_F(t, q, u)
+            if parts[0] == "s2p":
+                sub = subs[0]
+                c, vc, Om = _kin(sub, None, t2, q[sub.my_qDOF], u[sub.my_uDOF], params["B_r_CP"])
+                n2 = mot.A0[:, 2]
+                gd_ref = n2 @ (vc - mot.r_t(t2))
+                g2_ref = n2 @ (c - mot.r(t2)) - params["r"]
+            else:
+                kin = []
+                for s_, m_ in zip(subs, mots):
+                    qs = q[s_.my_qDOF] if getattr(s_, "nq", 0) else None
+                    us = u[s_.my_uDOF] if getattr(s_, "nu", 0) else None
+                    kin.append(_kin(s_, m_, t2, qs, us, np.zeros(3)))
+                d2 = kin[1][0] - kin[0][0]
+                n2 = d2 / np.linalg.norm(d2)
+                gd_ref = n2 @ (kin[1][1] - kin[0][1])
+                g2_ref = np.linalg.norm(d2) - params["r1"] - params["r2"]
+            ctx.mon("GEO:revisit")
+            ex2 = {**params, "t_first": t, "t": t2, "q": q, "u": u}
+            g2 = system.g_N(t2, q)[0]
+            gd = system.g_N_dot(t2, q, u)[0]
+            sc = 1 + np.abs(u).max() + abs(gd_ref)
+            if abs(g2 - g2_ref) > 1e-9 * (1 + abs(g2_ref) + np.abs(q).max()):
+                ctx.violation(f"{label}.g_N", "normal gap at the same coordinates but another time differs from the signed distance", {**ex2, "g_N": g2, "distance": g2_ref})
+            if abs(gd - gd_ref) > 1e-9 * sc:
+                ctx.violation(f"{label}.g_N_dot", "normal gap velocity at the same coordinates but another time differs from the normal relative velocity of the contact points",
+                              {**ex2, "g_N_dot": gd, "reference": gd_ref})
+            W = np.asarray(oracles_dense(system.W_N(t2, q)))[:, 0]
+            gd0 = system.g_N_dot(t2, q, np.zeros_like(u))[0]
+            if abs(W @ u + gd0 - gd_ref) > 1e-9 * sc * (1 + np.abs(W).max()):
+                ctx.violation(f"{label}.W_N", "W_N^T u + g_N_dot(u=0) at the same coordinates but another time differs from the normal relative velocity",
+                              {**ex2, "value": float(W @ u + gd0), "reference": gd_ref})
+            if mu > 0 and parts[0] == "s2s":
+                T2 = np.asarray(con.t1t2(t2, q[con.qDOF]), dtype=float)
+                if np.abs(T2 @ n2).max() > 1e-9 or np.abs(T2 @ T2.T - np.eye(2)).max() > 1e-9:
+                    ctx.violation(f"{label}.t1t2", "tangent basis at the same coordinates but another time is not orthonormal / perpendicular to the contact normal",
+                                  {**ex2, "T": T2, "n": n2})
     ctx.sig([params, first_state], nontrivial=nontrivial or mu == 0)
     ctx.sample({**params, "t0": t0})
